@@ -1,4 +1,5 @@
 import PdtVerif.Lemmas.Transcripts
+import PdtVerif.Lemmas.TranscriptsText
 /-!
 # C11 — transcript files read back exactly what was written
 
@@ -549,5 +550,402 @@ theorem C11_dispatch_pinned_counterexample :
 
 example : viaPath (V := Nat) ⟨"read_ctm", ["wc2utt"], ["wc2utt"]⟩ (fun _ => 0) (fun _ => 7) "wc2utt" = 7 :=
   C11_dispatch_values _ (by decide) _ _ _ (by decide) (by decide)
+
+/-! ## text layers -/
+
+/-- **C11_dec_text**: the decimal strings the writers emit (`'%.{p}f'` for TextGrid; the finite
+decimal expansion `repr(float)` prints for ctm) read back exactly: as mantissa and digit count, and
+through `float(...)` as the value — for every mantissa (negative ones included) and precision. -/
+theorem C11_dec_text (d : Dec) : parseDec d.chars = some d ∧ parseFloat d.chars = some d.val :=
+  ⟨parseDec_chars d, parseFloat_chars d⟩
+
+example : (⟨12345, 3⟩ : Dec).chars = ['1', '2', '.', '3', '4', '5'] ∧
+    (⟨5, 3⟩ : Dec).chars = ['0', '.', '0', '0', '5'] ∧ (⟨-50, 1⟩ : Dec).chars = ['-', '5', '.', '0'] ∧
+    (⟨7, 0⟩ : Dec).chars = ['7'] := by decide
+
+/-- **C11_ctm_text**: `read_ctm` on the characters `write_ctm` writes equals `read_ctm` at record
+level — same result, same error — for every list of lines whose three string columns are printable
+(non-empty, no white space, no `;;`) and every `wc2utt`: the file iteration finds the lines, cutting
+the comment and stripping change nothing, `split()` returns the five columns, `float` the numbers. -/
+theorem C11_ctm_text (w2u : Option (String × String → Option String)) (segs : List SegT)
+    (hok : ∀ s ∈ segs, ctmFieldOk s.wfn = true ∧ ctmFieldOk s.chan = true ∧ ctmFieldOk s.tok = true) :
+    readCtmText w2u ((segs.map SegT.line).flatten) = readCtm w2u (segs.map SegT.toSeg) :=
+  readCtmText_lines w2u segs hok
+
+/-- **C11_ctm_text_roundtrip**: `C11_ctm` down to the characters of the file. Under the hypotheses of
+`C11_ctm`, with printable waveform names, channels and tokens, whenever `write_ctm` can print every
+time as a finite decimal (`writeCtmText … = some text`): reading that text gives `specCtm`. -/
+theorem C11_ctm_text_roundtrip (m : Utt2Wc) (w2u : Option (String × String → Option String))
+    (ts : Transcripts) (wc : String → String × String)
+    (hwc : ∀ ut ∈ ts, m.get ut.1 = some (wc ut.1))
+    (hinv : ∀ ut ∈ ts, (match w2u with | none => some (wc ut.1).1 | some g => g (wc ut.1)) = some ut.1)
+    (hnd : (ts.map (·.1)).Nodup)
+    (hok : ∀ ut ∈ ts, ∀ x ∈ ut.2, timedOk x = true)
+    (hprint : ∀ ut ∈ ts, ctmFieldOk (wc ut.1).1.toList = true ∧ ctmFieldOk (wc ut.1).2.toList = true ∧
+      ∀ x ∈ ut.2, ctmFieldOk x.1.toList = true)
+    (text : List Char) (hw : writeCtmText m ts = .ok (some text)) :
+    readCtmText w2u text = .ok (specCtm wc ts) := by
+  obtain ⟨segs, hW, hR⟩ := C11_ctm m w2u ts wc hwc hinv hnd hok
+  have hW2 := writeCtm_ok m ts wc hwc hok
+  rw [hW] at hW2
+  simp only [Except.ok.injEq] at hW2
+  unfold writeCtmText at hw
+  rw [hW] at hw
+  simp only [Except.ok.injEq] at hw
+  cases hall : allSome (segs.map segToText) with
+  | none => simp [hall] at hw
+  | some segsT =>
+    simp only [hall, Option.map_some, Option.some.injEq] at hw
+    subst hw
+    have hmap := allSome_eq_some _ _ hall
+    -- every printed line is the print of its record
+    have hlen : segsT.length = segs.length := by
+      have := congrArg List.length hmap
+      simpa using this.symm
+    have hpt : ∀ i (h1 : i < segs.length) (h2 : i < segsT.length), segToText segs[i] = some segsT[i] := by
+      intro i h1 h2
+      have := congrArg (fun l => l[i]?) hmap
+      simpa [h1, h2] using this
+    have hto : segsT.map SegT.toSeg = segs := by
+      apply List.ext_getElem (by simpa using hlen)
+      intro i h1 h2
+      simp only [List.getElem_map]
+      exact (segToText_some _ _ (hpt i h2 (by simpa using h1))).1
+    have hmemAll : ∀ s ∈ segs, ∃ ut ∈ ts, ∃ x ∈ ut.2, mkSeg (wc ut.1) x = s := by
+      intro s hs
+      rw [hW2, List.mem_mergeSort, List.mem_flatten] at hs
+      obtain ⟨l, hl, hsl⟩ := hs
+      rw [List.mem_map] at hl
+      obtain ⟨ut, hut, rfl⟩ := hl
+      rw [List.mem_map] at hsl
+      obtain ⟨x, hx, hsx⟩ := hsl
+      exact ⟨ut, hut, x, hx, hsx⟩
+    have hfields : ∀ s ∈ segsT, ctmFieldOk s.wfn = true ∧ ctmFieldOk s.chan = true ∧ ctmFieldOk s.tok = true := by
+      intro s hs
+      obtain ⟨i, hi, rfl⟩ := List.getElem_of_mem hs
+      have hi' : i < segs.length := by omega
+      obtain ⟨_, e1, e2, e3⟩ := segToText_some _ _ (hpt i hi' hi)
+      obtain ⟨ut, hut, x, hx, hsx⟩ := hmemAll _ (List.getElem_mem hi')
+      obtain ⟨p1, p2, p3⟩ := hprint ut hut
+      rw [e1, e2, e3, ← hsx]
+      exact ⟨p1, p2, p3 x hx⟩
+    rw [C11_ctm_text w2u segsT hfields, hto, hR]
+
+/-- Non-vacuity of the text round trip (`10.0`, `0.5`: what Python prints). -/
+example : readCtmText none "u1 A 10.0 0.5 b\n".toList
+    = .ok (specCtm (fun u => (u, "A")) [("u1", [("b", 10, 21/2)])]) := by
+  apply C11_ctm_text_roundtrip (.chan "A")
+  · intro ut _; rfl
+  · intro ut _; rfl
+  · decide
+  · intro ut hut x hx
+    simp only [List.mem_cons, List.not_mem_nil, or_false] at hut
+    subst hut
+    simp only [List.mem_cons, List.not_mem_nil, or_false] at hx
+    subst hx
+    simp [timedOk]; norm_num
+  · decide
+  · decide +kernel
+
+/-- Non-vacuity: a printable line (two-digit and one-digit decimals) and the characters it becomes. -/
+example : ctmFieldOk ['w', '1'] = true ∧ ctmFieldOk ['A'] = true ∧ ctmFieldOk ['a', ';', 'b'] = true ∧
+    (⟨['w', '1'], ['A'], ⟨25, 2⟩, ⟨0, 1⟩, ['a', ';', 'b']⟩ : SegT).line
+      = ['w', '1', ' ', 'A', ' ', '0', '.', '2', '5', ' ', '0', '.', '0', ' ', 'a', ';', 'b', '\n'] := by
+  decide
+
+/-- **C11_textgrid_text**: for every structured file with non-negative numbers, a tier name without
+line break and labels without `"` and carriage return (line breaks inside labels are fine), the
+characters `write_textgrid` writes parse back to exactly that file, and `read_textgrid` on the
+characters (text mode) — also on the same characters written with CRLF line ends — is
+`read_textgrid` on the structure, under every tier selector, fill token and sort variant. -/
+theorem C11_textgrid_text (f : TgFile) (h : f.textOk = true) :
+    parseTg f.chars = some f ∧
+    ∀ (srt : TgSort) (tier : TierId) (fill : Option String),
+      readTextGridText srt f.chars tier fill = some (readTextGrid srt f tier fill) ∧
+      readTextGridText srt (crlf f.chars) tier fill = some (readTextGrid srt f tier fill) :=
+  ⟨parseTg_chars f h, fun srt tier fill =>
+    ⟨readTextGridText_chars srt f h tier fill, readTextGridText_crlf srt f h tier fill⟩⟩
+
+example : (⟨⟨900, 2⟩, ⟨1150, 2⟩, "tr \"x\"", ⟨900, 2⟩, ⟨1150, 2⟩,
+      .intervals [(⟨900, 2⟩, ⟨1000, 2⟩, "a"), (⟨1000, 2⟩, ⟨1150, 2⟩, "b\nc")]⟩ : TgFile).textOk = true := by
+  decide
+
+/-- **C11_textgrid_text_roundtrip**: `C11_textgrid_roundtrip` down to the characters of the file
+("proved on writer output"): for a time-ordered transcript with non-negative times, labels without
+`"` / carriage return and a tier name without line break, `write_textgrid` succeeds, and
+`read_textgrid` applied to the very characters it wrote (text mode; also when they were written
+with CRLF line ends) returns the entries in order, every time rounded to the print precision, and
+the rounded tier bounds. -/
+theorem C11_textgrid_text_roundtrip (t : List Timed) (o : TgWriteOpts) (tier : TierId)
+    (hne : t ≠ [])
+    (hsorted : t.Pairwise (fun a b => a.2.1 ≤ b.2.1))
+    (hst : ∀ s, o.startTime = some s → s ≤ minList (t.map (·.2.1)))
+    (hen : ∀ e, o.endTime = some e → maxList (t.map (·.2.2)) ≤ e)
+    (htier : tier = .idx 0 ∨ tier = .idx (-1) ∨ tier = .name o.tierName)
+    (hnn : ∀ x ∈ t, 0 ≤ x.2.1 ∧ 0 ≤ x.2.2)
+    (hs0 : ∀ s, o.startTime = some s → 0 ≤ s)
+    (hlab : ∀ x ∈ t, tgLabelOk x.1 = true)
+    (hname : tgNameOk o.tierName = true) :
+    ∃ f, writeTextGrid t o = .ok f ∧ f.textOk = true ∧
+      readTextGridText .byStart f.chars tier none
+        = some (.ok (t.map (readBack o.precision (isPointTier t o)),
+            (fmt o.precision (minList (t.map (·.2.1)))).val,
+            (fmt o.precision (maxList (t.map (·.2.2)))).val)) ∧
+      readTextGridText .byStart (crlf f.chars) tier none
+        = some (.ok (t.map (readBack o.precision (isPointTier t o)),
+            (fmt o.precision (minList (t.map (·.2.1)))).val,
+            (fmt o.precision (maxList (t.map (·.2.2)))).val)) := by
+  obtain ⟨f, hw, _, hr⟩ := C11_textgrid_roundtrip t o tier hne hsorted hst hen htier
+  have hok : f.textOk = true := by
+    have hemp : t.isEmpty = false := by cases t <;> simp_all
+    have e1 : checkStart o.startTime (minList (t.map (·.2.1)))
+        = .ok (o.startTime.getD (minList (t.map (·.2.1)))) := by
+      unfold checkStart
+      cases h : o.startTime with
+      | none => rfl
+      | some s => simp [not_lt.mpr (hst s h)]
+    have e2 : checkEnd o.endTime (maxList (t.map (·.2.2)))
+        = .ok (o.endTime.getD (maxList (t.map (·.2.2)))) := by
+      unfold checkEnd
+      cases h : o.endTime with
+      | none => rfl
+      | some e => simp [not_lt.mpr (hen e h)]
+    simp only [writeTextGrid, hemp, Bool.false_eq_true, if_false, e1, e2, Except.ok.injEq] at hw
+    subst hw
+    have hmin : 0 ≤ minList (t.map (·.2.1)) := by
+      have := minList_mem (l := t.map (·.2.1)) (by simpa using hne)
+      rw [List.mem_map] at this
+      obtain ⟨x, hx, he⟩ := this
+      rw [← he]; exact (hnn x hx).1
+    have hmax : 0 ≤ maxList (t.map (·.2.2)) := by
+      have := maxList_mem (l := t.map (·.2.2)) (by simpa using hne)
+      rw [List.mem_map] at this
+      obtain ⟨x, hx, he⟩ := this
+      rw [← he]; exact (hnn x hx).2
+    have hs : 0 ≤ o.startTime.getD (minList (t.map (·.2.1))) := by
+      cases h : o.startTime with
+      | none => simpa using hmin
+      | some s => simpa using hs0 s h
+    have he : 0 ≤ o.endTime.getD (maxList (t.map (·.2.2))) := by
+      cases h : o.endTime with
+      | none => simpa using hmax
+      | some e => simpa using le_trans hmax (hen e h)
+    simp only [TgFile.textOk, Bool.and_eq_true, decide_eq_true_eq]
+    refine ⟨⟨⟨⟨⟨fmt_nonneg _ hs, fmt_nonneg _ he⟩, fmt_nonneg _ hmin⟩, fmt_nonneg _ hmax⟩, hname⟩, ?_⟩
+    simp only [tgBody]
+    split_ifs with c
+    · simp only [TgBody.textOk, List.all_map, List.all_eq_true, Function.comp, Bool.and_eq_true,
+        decide_eq_true_eq]
+      exact fun x hx => ⟨fmt_nonneg _ (hnn x hx).1, hlab x hx⟩
+    · simp only [TgBody.textOk, List.all_map, List.all_eq_true, Function.comp, Bool.and_eq_true,
+        decide_eq_true_eq]
+      exact fun x hx => ⟨⟨fmt_nonneg _ (hnn x hx).1, fmt_nonneg _ (hnn x hx).2⟩, hlab x hx⟩
+  refine ⟨f, hw, hok, ?_, ?_⟩
+  · rw [(C11_textgrid_text f hok).2 .byStart tier none |>.1, hr]
+  · rw [(C11_textgrid_text f hok).2 .byStart tier none |>.2, hr]
+
+/-! ## tiers, any order -/
+
+/-- **C11_textgrid_any_order**: `C11_textgrid_roundtrip` without the time-order hypothesis: entries
+handed to `write_textgrid` in any order come back stably sorted by their (rounded) start, nothing
+lost, every time rounded to the print precision, bounds = rounded minimum start / maximum end. -/
+theorem C11_textgrid_any_order (t : List Timed) (o : TgWriteOpts) (tier : TierId)
+    (hne : t ≠ [])
+    (hst : ∀ s, o.startTime = some s → s ≤ minList (t.map (·.2.1)))
+    (hen : ∀ e, o.endTime = some e → maxList (t.map (·.2.2)) ≤ e)
+    (htier : tier = .idx 0 ∨ tier = .idx (-1) ∨ tier = .name o.tierName) :
+    ∃ f, writeTextGrid t o = .ok f ∧
+      readTextGrid .byStart f tier none
+        = .ok ((t.map (readBack o.precision (isPointTier t o))).mergeSort startLe,
+        (fmt o.precision (minList (t.map (·.2.1)))).val,
+        (fmt o.precision (maxList (t.map (·.2.2)))).val) := by
+  have hemp : t.isEmpty = false := by cases t <;> simp_all
+  have e1 : checkStart o.startTime (minList (t.map (·.2.1)))
+      = .ok (o.startTime.getD (minList (t.map (·.2.1)))) := by
+    unfold checkStart
+    cases h : o.startTime with
+    | none => rfl
+    | some s => simp [not_lt.mpr (hst s h)]
+  have e2 : checkEnd o.endTime (maxList (t.map (·.2.2)))
+      = .ok (o.endTime.getD (maxList (t.map (·.2.2)))) := by
+    unfold checkEnd
+    cases h : o.endTime with
+    | none => rfl
+    | some e => simp [not_lt.mpr (hen e h)]
+  simp only [writeTextGrid, hemp, Bool.false_eq_true, if_false, e1, e2]
+  refine ⟨_, rfl, ?_⟩
+  have hfound : tierFound ⟨fmt o.precision (o.startTime.getD (minList (t.map (·.2.1)))),
+      fmt o.precision (o.endTime.getD (maxList (t.map (·.2.2)))),
+      o.tierName, fmt o.precision (minList (t.map (·.2.1))), fmt o.precision (maxList (t.map (·.2.2))),
+      tgBody t o⟩ tier = .ok () := by
+    rcases htier with rfl | rfl | rfl <;> simp [tierFound]
+  simp only [readTextGrid, hfound, fillAll_none]
+  congr 2
+  simp only [sortedTimes]
+  rw [List.map_mergeSort (s := startLe) (fun a _ b _ => rfl)]
+  congr 1
+  simp only [tgBody]
+  split_ifs with c <;> simp [TgBody.entries, readBack, c, Function.comp_def]
+
+/-- **C11_textgrid_tier_select**: in a file with several tiers `tier_id` selects
+(1) by name: the FIRST tier with that name — `ValueError` iff there is none;
+(2) by index: `tiers[i]` for `0 ≤ i < n`, `tiers[n + i]` for `-n ≤ i < 0`, `IndexError` otherwise;
+(3) for a file with one tier this is the rule used by the single-tier theorems (`readTextGrid`). -/
+theorem C11_textgrid_tier_select (tiers : List TgTier) :
+    (∀ s t, tierSelect tiers (.name s) = .ok t ↔
+      ∃ pre post, tiers = pre ++ t :: post ∧ t.name = s ∧ ∀ x ∈ pre, x.name ≠ s) ∧
+    (∀ s, tierSelect tiers (.name s) = .error .value ↔ ∀ x ∈ tiers, x.name ≠ s) ∧
+    (∀ (i : Nat) (h : i < tiers.length), tierSelect tiers (.idx i) = .ok tiers[i]) ∧
+    (∀ (i : Nat) (h : i < tiers.length), tierSelect tiers (.idx (-(i + 1 : Nat)))
+        = .ok (tiers[tiers.length - 1 - i]'(by omega))) ∧
+    (∀ i : Int, (i < -(tiers.length : Int) ∨ (tiers.length : Int) ≤ i) →
+        tierSelect tiers (.idx i) = .error .index) ∧
+    (∀ (t : TgTier) srt tier fill, readTextGridDoc srt [t] tier fill = readTextGrid srt t.asFile tier fill) := by
+  refine ⟨?_, ?_, ?_, ?_, ?_, ?_⟩
+  · intro s t
+    unfold tierSelect
+    simp only
+    cases hf : tiers.find? (fun t => t.name == s) with
+    | none =>
+      simp only [reduceCtorEq, false_iff]
+      rintro ⟨pre, post, rfl, hn, _⟩
+      rw [List.find?_eq_none] at hf
+      have := hf t (by simp)
+      simp [hn] at this
+    | some t' =>
+      rw [List.find?_eq_some_iff_append] at hf
+      obtain ⟨hn, pre, post, rfl, hpre⟩ := hf
+      simp only [Except.ok.injEq]
+      constructor
+      · rintro rfl
+        exact ⟨pre, post, rfl, by simpa using hn, fun x hx => by simpa using hpre x hx⟩
+      · rintro ⟨pre', post', heq, hn', hpre'⟩
+        -- both decompositions split at the first tier named `s`
+        have hn1 : t'.name = s := by simpa using hn
+        have key : ∀ (a b : List TgTier) (x y : TgTier) (p q : List TgTier), a ++ x :: p = b ++ y :: q →
+            x.name = s → y.name = s → (∀ z ∈ a, z.name ≠ s) → (∀ z ∈ b, z.name ≠ s) → x = y := by
+          intro a
+          induction a with
+          | nil =>
+            intro b x y p q h hx hy _ hb
+            cases b with
+            | nil => simp at h; exact h.1
+            | cons b0 bs =>
+              simp at h
+              exact absurd (h.1 ▸ hx) (hb b0 (by simp))
+          | cons a0 as ih =>
+            intro b x y p q h hx hy ha hb
+            cases b with
+            | nil =>
+              simp at h
+              exact absurd (h.1 ▸ hy) (ha a0 (by simp))
+            | cons b0 bs =>
+              simp at h
+              exact ih bs x y p q h.2 hx hy (fun z hz => ha z (by simp [hz])) (fun z hz => hb z (by simp [hz]))
+        exact key pre pre' t' t post post' heq hn1 hn' (fun x hx => by simpa using hpre x hx) hpre'
+  · intro s
+    unfold tierSelect
+    simp only
+    cases hf : tiers.find? (fun t => t.name == s) with
+    | none =>
+      rw [List.find?_eq_none] at hf
+      simp only [true_iff]
+      intro x hx
+      simpa using hf x hx
+    | some t' =>
+      simp only [reduceCtorEq, false_iff]
+      intro hall
+      have := List.mem_of_find?_eq_some hf
+      have h2 := List.find?_some hf
+      exact hall t' this (by simpa using h2)
+  · intro i h
+    unfold tierSelect
+    have h1 : ¬ ((i : Int) < 0) := by omega
+    have h2 : ¬ ((tiers.length : Int) ≤ (i : Int)) := by omega
+    simp [h1, h2, h]
+  · intro i h
+    unfold tierSelect
+    have h1 : (-((i + 1 : Nat) : Int)) < 0 := by omega
+    have h2 : ¬ (-((i + 1 : Nat) : Int) + (tiers.length : Int) < 0) := by omega
+    have h3 : ¬ ((tiers.length : Int) ≤ -((i + 1 : Nat) : Int) + (tiers.length : Int)) := by omega
+    have h4 : (-((i + 1 : Nat) : Int) + (tiers.length : Int)).toNat = tiers.length - 1 - i := by omega
+    have h5 : tiers.length - 1 - i < tiers.length := by omega
+    simp only [h1, if_true, h2, h3, decide_false, Bool.or_self, Bool.false_eq_true, if_false, h4,
+      List.getElem?_eq_getElem h5]
+  · intro i hi
+    unfold tierSelect
+    by_cases h0 : i < 0
+    · have : i + (tiers.length : Int) < 0 ∨ (tiers.length : Int) ≤ i + (tiers.length : Int) := by omega
+      rcases this with h | h <;> simp [h0, h]
+    · have : (tiers.length : Int) ≤ i := by omega
+      simp [h0, this]
+  · intro t srt tier fill
+    unfold readTextGridDoc readTextGrid tierSelect tierFound TgTier.asFile
+    cases tier with
+    | name s =>
+      simp only [List.find?_cons, List.find?_nil]
+      by_cases h : (t.name == s) = true <;> simp [h]
+    | idx i =>
+      simp only [List.length_cons, List.length_nil]
+      by_cases h0 : i = 0
+      · subst h0; simp
+      · by_cases h1 : i = -1
+        · subst h1; simp
+        · have e1 : (i == 0 || i == -1) = false := by simp [h0, h1]
+          simp only [e1, Bool.false_eq_true, if_false]
+          by_cases hneg : i < 0
+          · have : i + 1 < 0 := by omega
+            simp [hneg, this]
+          · have : (1 : Int) ≤ i := by omega
+            simp [hneg, this]
+
+example : tierSelect [⟨"words", ⟨0, 0⟩, ⟨2, 0⟩, .intervals []⟩, ⟨"pts", ⟨0, 0⟩, ⟨2, 0⟩, .points []⟩,
+      ⟨"words", ⟨1, 0⟩, ⟨2, 0⟩, .intervals []⟩] (.idx (-1))
+    = .ok ⟨"words", ⟨1, 0⟩, ⟨2, 0⟩, .intervals []⟩ := by decide
+
+/-! ## path or file: the single exception -/
+
+/-- **C11_dispatch**: the dispatch statement lifted as far as the code allows, the known finding the
+one exception:
+(1) an option of a path branch is handed on to the file branch **iff** it is not `write_textgrid`'s
+    `point_tier` (`C11_dispatch_partial` + `C11_dispatch_counterexample` in one statement);
+(2) what the exception does: `write_textgrid(path, …)` is `write_textgrid(file, …)` with
+    `point_tier` left at its default, for every transcript and every value of every option;
+(3) hence path and file produce different output **iff** the call succeeds and the tier type asked
+    for differs from the one that would be inferred. -/
+theorem C11_dispatch :
+    (∀ d ∈ dispatchTable, ∀ o ∈ d.options,
+      (o ∈ d.forwarded ↔ (d.fn, o) ≠ ("write_textgrid", "point_tier"))) ∧
+    (∀ (t : List Timed) (o : TgWriteOpts),
+      writeTextGridVia tgForwarded t o = writeTextGrid t { o with pointTier := none }) ∧
+    (∀ (t : List Timed) (o : TgWriteOpts),
+      writeTextGridVia tgForwarded t o ≠ writeTextGrid t o ↔
+        (∃ f, writeTextGrid t o = .ok f) ∧ isPointTier t o ≠ isPointTier t { o with pointTier := none }) := by
+  refine ⟨by decide, ?_, ?_⟩
+  · intro t o
+    cases o; rfl
+  · intro t o
+    have hvia : writeTextGridVia tgForwarded t o = writeTextGrid t { o with pointTier := none } := by
+      cases o; rfl
+    rw [hvia]
+    obtain ⟨st, en, name, pt, p⟩ := o
+    simp only
+    unfold writeTextGrid
+    by_cases hemp : t.isEmpty = true
+    · simp [hemp]
+    · simp only [hemp, Bool.false_eq_true, if_false]
+      cases checkStart st (minList (t.map (·.2.1))) with
+      | error e => simp
+      | ok s =>
+        cases checkEnd en (maxList (t.map (·.2.2))) with
+        | error e => simp
+        | ok e =>
+          simp only [ne_eq, Except.ok.injEq, TgFile.mk.injEq, true_and, exists_eq', and_true]
+          have hne : t ≠ [] := by intro h; simp [h] at hemp
+          obtain ⟨x, xs, rfl⟩ := List.exists_cons_of_ne_nil hne
+          unfold tgBody
+          by_cases c1 : isPointTier (x :: xs) ⟨st, en, name, none, p⟩ = true <;>
+            by_cases c2 : isPointTier (x :: xs) ⟨st, en, name, pt, p⟩ = true <;>
+            simp [c1, c2]
 
 end PdtVerif.Transcripts
